@@ -114,6 +114,7 @@ theorem without_comparison_coerced_key_kept :
     updateKey F0 binding (.int 3) (.text [51]) = some (.int 3) := by
   decide
 
-theorem key_update_facts : S3db.Gen.facts.updateRefusesKeyChange = true := by decide
+theorem key_update_facts :
+    S3db.Gen.facts.updateRefusesKeyChange = true ∧ S3db.Gen.facts.rowidCannotBeAssigned = true := by decide
 
 end S3db.Props.C08
